@@ -437,6 +437,43 @@ def gen_units():
         fn("is_block_expr", "r", ensures=["r == (expr is Block)"]),
         fn("is_lower_precedence_than_method_call", "r", ensures=["r == low_prec(*expr)"]),
     ]))
+    # C03: where a step begins: the fold of `JoinOutput::new` that splits a branch's members at the `~` marks (R15 + R13)
+    u.append(ty(F_CHAIN, "ActionExprChain"))
+    u.append(fns(F_CHAIN, [
+        fn("members", "r", mode="assumed", ensures=["r@ == self.members@"],
+           subst=[{"find": "&[Self::Member]", "replace": "&[ExprGroup<ActionExpr>]", "why": "associated type of the Chain impl written out (type Member = ExprGroup<ActionExpr>)", "sig": True}]),
+        fn("id", "r", ensures=["match self.ident { Some(p) => r == Some(&p), None => r is None }"],
+           subst=[{"find": "Option<&Self::Identifier>", "replace": "Option<&PatIdent>", "why": "associated type of the Chain impl written out (type Identifier = PatIdent)", "sig": True}]),
+    ], self_ty="ActionExprChain", trait="Chain", header="impl ActionExprChain"))
+    MS = "expr_chain.members@"
+    u.append({"kind": "lifted", "file": F_JO, "self_ty": "JoinOutput", "func": "new", "closure": 0,
+              "header": "impl<'a> JoinOutput<'a>",
+              "sig": "split_branch_steps(expr_chain: &'a ActionExprChain) -> ((usize, Option<&'a PatIdent>), Vec<Vec<&'a ExprGroup<ActionExpr>>>)",
+              "spec": fn("split_branch_steps", "r", label="JoinOutput::split_branch_steps",
+                         attrs="#[verifier::loop_isolation(false)]\n",
+                         requires=["%s.len() < usize::MAX" % MS],
+                         ensures=["deep(r.1@) =~~= split_steps(%s, %s.len() as int)" % (MS, MS),
+                                  "r.0.0 == r.1@.len()",
+                                  "match expr_chain.ident { Some(p) => r.0.1 == Some(&p), None => r.0.1 is None }"],
+                         subst=[{"find": "chain_acc.last_mut().unwrap().push(member);", "replace": "vec_last_push(&mut chain_acc, member);",
+                                 "why": "Verus has no &mut-returning methods; the helper (verified in the prelude) pops the last inner vector, pushes and puts it back"}],
+                         closures={
+                             "|(depth, mut chain_acc), member|": {"id": "G", "params": ["(usize, Vec<Vec<&'a ExprGroup<ActionExpr>>>)", "&'a ExprGroup<ActionExpr>"],
+                                   "ret": "(r: (usize, Vec<Vec<&'a ExprGroup<ActionExpr>>>))",
+                                   "requires": ["__Gp0.1@.len() >= 1", "__Gp0.0 == __Gp0.1@.len()", "__Gp0.0 < usize::MAX"],
+                                   "ensures": ["r.0 == r.1@.len()",
+                                               "member.action.application_type == ApplicationType::Deferred ==> deep(r.1@) =~~= deep(__Gp0.1@).push(seq![member])",
+                                               "member.action.application_type != ApplicationType::Deferred ==> deep(r.1@) =~~= deep(__Gp0.1@).update(__Gp0.1@.len() - 1, deep(__Gp0.1@).last().push(member))"]},
+                         },
+                         iter_loops={"0": {"acc_ty": "(usize, Vec<Vec<&'a ExprGroup<ActionExpr>>>)", "invariant": [
+                             "__i <= __it.len()", "__it@ == %s" % MS,
+                             "__acc.0 == __acc.1@.len()", "__acc.1@.len() >= 1", "__acc.1@.len() <= __i + 1",
+                             "deep(__acc.1@) =~~= split_steps(%s, __i as int)" % MS,
+                             "forall|a: (usize, Vec<Vec<&'a ExprGroup<ActionExpr>>>), m: &'a ExprGroup<ActionExpr>| (a.1@.len() >= 1 && a.0 == a.1@.len() && a.0 < usize::MAX) ==> __g.requires((a, m))",
+                             "forall|a: (usize, Vec<Vec<&'a ExprGroup<ActionExpr>>>), m: &'a ExprGroup<ActionExpr>, r: (usize, Vec<Vec<&'a ExprGroup<ActionExpr>>>)| __g.ensures((a, m), r) ==> "
+                             "(r.0 == r.1@.len() && (m.action.application_type == ApplicationType::Deferred ==> deep(r.1@) =~~= deep(a.1@).push(seq![m])) && "
+                             "(m.action.application_type != ApplicationType::Deferred ==> deep(r.1@) =~~= deep(a.1@).update(a.1@.len() - 1, deep(a.1@).last().push(m))))",
+                         ]}})})
     # C02 / C15: one branch of one step of `generate_step` (R15: the body of its third closure, lifted): the fold that
     # feeds the actions to the stack, the loop that closes the wrappers still open at the end of the step, the spawn
     # wrapping.  For every action list the parser can produce (step_acts_ok) no precondition of the stack functions is
@@ -457,9 +494,11 @@ def gen_units():
                                                 "acc is Some ==> frame_inv(acc->0.step_streams@, %s, __Gp1.0 as int)" % ACTS],
                                    "ensures": ["r is Some", "frame_inv(r->0.step_streams@, %s, __Gp1.0 as int + 1)" % ACTS]},
                              "1": {"params": ["StepAcc<'a>"], "ret": "(r: StepAcc<'a>)",
+                                   "prologue": "proof { lemma_wdepth_step(%s, expr_index as int); }" % ACTS,
                                    "requires": ["frame_inv(step_acc.step_streams@, %s, expr_index as int)" % ACTS],
                                    "ensures": ["frame_inv(r.step_streams@, %s, expr_index as int + 1)" % ACTS]},
                              "2": {"params": [], "ret": "(r: Option<StepAcc<'a>>)",
+                                   "prologue": "proof { lemma_wdepth_step(%s, 0); }" % ACTS,
                                    "requires": ["expr_index == 0"],
                                    "ensures": ["r is Some", "frame_inv(r->0.step_streams@, %s, 1)" % ACTS]},
                              "3": {"id": "U", "params": ["StepAcc<'a>"], "ret": "(r: (Option<TokenStream>, TokenStream))",
